@@ -18,6 +18,8 @@
 (* One action per request handled by the server / per local step:          *)
 (*   Create, ManagedReturn   object made, temporary proxy (+1), reply      *)
 (*                           pickled (+1)                                  *)
+(*   ManagedAgain            managed() of an object that is hosted already *)
+(*                           (same identity): +2 on the existing count     *)
 (*   ServerDropTmp           the temporary's finalizer (-1)                *)
 (*   Pickle                  __reduce__ (+1): to a queue/pipe ("msg"), as   *)
 (*                           Process(args=...) of a new child ("args"), as  *)
@@ -55,7 +57,8 @@ CONSTANTS
   Blocks,         \* hosted MemoryBlocks
   MaxId,          \* bound on the number of proxies + pickles ever made
   AllowSelfStore, \* a container may be stored in itself (reference cycle: legitimately immortal)
-  InheritOwnsRef, ExitReleases
+  InheritOwnsRef, ExitReleases,
+  RewrapKeepsCount \* TRUE = the code as it is; FALSE = `create` resets the count of an already hosted object (sensitivity)
 
 VARIABLES
   alive,     \* [Objs -> {"no", "yes", "gone"}]
@@ -97,15 +100,20 @@ Dec(o) == refcount' = [refcount EXCEPT ![o] = @ - 1]
 -----------------------------------------------------------------------------
 \* `server.list()` (one-shot connection) or a hosted method returning `managed(x)` (via = "managed"; through the
 \* caller's connection): the object starts with its temporary proxy and the pickled reply.
+\* via = "again": a hosted method returns `managed(x)` for an x that is ALREADY hosted (same identity, e.g. a method that
+\* wraps the same member on every call).  `Server.create` must keep the count of the existing entry: the new temporary
+\* and the new reply add two references to those that exist.
 Create(p, o, via, i) ==
-  /\ Ready(p) /\ alive[o] = "no" /\ Fresh(i) /\ i + 1 <= MaxId
+  /\ Ready(p) /\ Fresh(i) /\ i + 1 <= MaxId
+  /\ IF via = "again" THEN alive[o] = "yes" /\ refcount[o] > 0 ELSE alive[o] = "no"
   /\ alive' = [alive EXCEPT ![o] = "yes"]
-  /\ refcount' = [refcount EXCEPT ![o] = 2]
-  /\ shm' = [shm EXCEPT ![o] = IF o \in Blocks THEN "yes" ELSE "no"]
+  /\ refcount' = [refcount EXCEPT ![o] = IF via = "again" /\ RewrapKeepsCount THEN @ + 2 ELSE 2]
+  /\ shm' = IF via = "again" THEN shm ELSE [shm EXCEPT ![o] = IF o \in Blocks THEN "yes" ELSE "no"]
   /\ tmp' = tmp \cup {[id |-> i + 1, obj |-> o]}
   /\ transit' = transit \cup {[id |-> i, obj |-> o, to |-> p, kind |-> "reply", st |-> "sent", by |-> p, src |-> via]}
   /\ nextId' = i + 2
-  /\ act' = [name |-> IF via = "create" THEN "Create" ELSE "ManagedReturn", p |-> p, o |-> o, i |-> i]
+  /\ act' = [name |-> IF via = "create" THEN "Create" ELSE IF via = "managed" THEN "ManagedReturn" ELSE "ManagedAgain",
+              p |-> p, o |-> o, i |-> i]
   /\ UNCHANGED <<proxies, pstate, parent>>
 
 ServerDropTmpR(t) ==
@@ -240,6 +248,7 @@ RebuildInheriting(i) == \E t \in transit : t.id = i /\ RebuildInheritingR(t)
 Pickle(xi, kind, dest, i) == \E x \in proxies : x.id = xi /\ PickleR(x, kind, dest, i)
 Delete(xi) == \E x \in proxies : x.id = xi /\ DeleteR(x)
 ManagedReturn(p, o, i) == Create(p, o, "managed", i)
+ManagedAgain(p, o, i) == Create(p, o, "again", i)
 PopFrom(p, yi, i) == \E y \in proxies : y.id = yi /\ RemoveFromR(p, y, "pop", i)
 DelFrom(p, yi) == \E y \in proxies : y.id = yi /\ RemoveFromR(p, y, "del", 0)
 GetFrom(p, yi, i) == \E y \in proxies : y.id = yi /\ GetFromR(p, y, i)
@@ -254,6 +263,7 @@ Internal ==
 External ==
   \/ \E p \in Procs, o \in Objs : Create(p, o, "create", nextId)
   \/ \E p \in Procs, o \in Objs : ManagedReturn(p, o, nextId)
+  \/ \E p \in Procs, o \in Objs : ManagedAgain(p, o, nextId)
   \/ \E xi \in Ids, kind \in {"msg", "args", "store"}, dest \in Clients \cup Containers : Pickle(xi, kind, dest, nextId)
   \/ \E i \in Ids : RebuildMsg(i)
   \/ \E i \in Ids : RebuildInheriting(i)
@@ -334,6 +344,8 @@ Trap_NestedOnly ==
                               /\ \E p \in Procs : pstate[p] = "exited")
 Trap_KidWhileOtherExited ==
   ~(\E x \in proxies : x.holder \in Kids /\ Quiet /\ \E p \in Procs : pstate[p] = "exited")
+\* an already hosted object has been wrapped a second time and the caller holds the second proxy
+Trap_Rewrapped == ~(Quiet /\ act.name = "RebuildDec" /\ act.src = "again")
 Trap_SelfStore ==
   ~(Quiet /\ \E x \in proxies : x.holder = x.obj /\ \A y \in proxies : y.obj = x.obj => y = x)
 =============================================================================
